@@ -71,6 +71,13 @@ def run_case(case, ctx):
         st.count("replacements_bringing_new_extra_columns")
     R = replcase.rep_to_atoms(rep, **rkw)
     f = case["fraction"]
+    if case["s"] % 5 in (1, 3):
+        # the three inputs in another array flavour: flagged read-only (an input must not be written to anyway), positions in
+        # column-major order, index arrays of another integer width
+        from vmon.oracle.util import flavour
+        fk = [None, 3, None, 2, None][case["s"] % 5]
+        st.count("replacements_whose_inputs_are_read_only_or_column_major")
+        st.seen("array_flavour_of_the_inputs", "%s/%s/%s" % (flavour(S, fk), flavour(P, fk), flavour(R, fk if len(R) else 0)))
     snaps = (clone(S), clone(P), clone(R))
     events.SCHEDULE["sample"] = case["sample"]
     # call forms: defaults left out where the case uses the default value; verbose output switched on now and then
@@ -231,6 +238,8 @@ def _cnt(d, rep_ids):
 
 def requirements(stats, tier):
     need = []
+    if stats.get("replacements_whose_inputs_are_read_only_or_column_major") < (100 if tier == "quick" else 10000):
+        need.append("replacements whose inputs are flagged read-only or stored column-major: %d" % stats.get("replacements_whose_inputs_are_read_only_or_column_major"))
     if stats.get("replacements_judged") < (400 if tier == "quick" else 40000):
         need.append("too few replacements judged: %d" % stats.get("replacements_judged"))
     if stats.nseen("repl_kind") < len(replcase.REPL_KINDS) - 1:
